@@ -310,6 +310,13 @@ func sortedKeys(m map[string]int) []string {
 	return ks
 }
 
+// Replica returns a fresh Run that replays the choices recorded so far on r's tape (differential
+// executions of the same history). Its counters are separate; violations must be raised on r.
+func (r *Run) Replica() *Run {
+	c := newRun(r.Property, r.Profile, r.Tier, r.Index, r.Seed, NewReplayTape(r.T.Data()), r.known)
+	return c
+}
+
 // StackOf returns the current goroutine's stack.
 func StackOf() string { return string(debug.Stack()) }
 
